@@ -2526,6 +2526,12 @@ fn core_word_str_to_num(xs: &mut State) -> Xresult {
         })?;
         xs.push_data(Cell::Real(r))
     } else {
+        if base < 2 || base > 36 {
+            return Err(Xerr::ParseError {
+                msg: crate::lex::PARSE_INT_ERRMSG,
+                substr: s.substr(..),
+            });
+        }
         let i = Xint::from_str_radix(&s, base).map_err(|_|
             Xerr::ParseError {
                 msg: crate::lex::PARSE_INT_ERRMSG,
